@@ -87,6 +87,17 @@ def run(rep):
                 oke = okstrip and t2 is not None and peel(t2).get("id") == sid and e2 is not None and whole_text(e2, self_id)
             ok = okc and okt and oke
         rep.check(ok, "CFG-HEAD", key + "/shape", first["sp"], "if cfg {(true, text)} else if let Some(s) = text.strip_prefix('i') {(true, s)} else {(false, text)}", det)
+        # after the head the raw text must not be consulted again: everything is derived from (flag, text)
+        rest = body["stmts"][1:] + ([{"k": "Expr", "e": body["expr"]}] if body.get("expr") else [])
+        uses = []
+        for st in rest:
+            e = st["e"] if st["k"] == "Expr" else st.get("init")
+            if e is None:
+                continue
+            for x in facts.walk(e):
+                if x.get("k") == "Var" and x.get("id") == self_id:
+                    uses.append(x["sp"])
+        rep.check(not uses, "CFG-HEAD", key + "/raw-text-unused-after-head", first["sp"], "after the head, into_identifier never looks at the raw text again (only at the text with the prefix decision applied)", str(uses[:3]))
         # the flag and the text are used for nothing else than the pattern dispatch: flag feeds Identifier.ignore_case
         fin = body.get("expr")
         s = show(fin) if fin else ""
@@ -128,7 +139,7 @@ def run(rep):
                 rep.configs.append("%s vs %s" % (feats or "default", allc[other]))
             except facts.BuildError as e:
                 rep.lost("CFG-ONE-FN", "CFG-ONE-FN/pair/%s" % feats, "configuration builds", str(e)[-200:])
-    rep.floor("CFG-HEAD", 6)
+    rep.floor("CFG-HEAD", 8)
     rep.floor("CFG-ITEMS", 5)
     rep.exhaustive = True
     rep.assumptions.append("direct Identifier{ignore_case:false,..} constructions for numbers/booleans under str() are identical in both builds (they are outside into_identifier, hence covered by CFG-ONE-FN)")
